@@ -8,6 +8,7 @@ import (
 	"sort"
 	"strings"
 	"sync"
+	"sync/atomic"
 	"time"
 
 	"github.com/hashicorp/raft"
@@ -60,6 +61,7 @@ type Runner struct {
 	verifyOnIS     int                   // >0: when the next InstallSnapshot request goes out, call VerifyLeader on its sender that many ms (minus one) later
 	verifyAt       int64                 // virtual ms at which that call is due (0: none)
 	verifyOn       string                // the sender
+	quietFlag      atomic.Bool           // mirror of quiet, readable without W.Mu (FSM goroutines)
 	dropAppendAcks bool                  // acknowledgements of AppendEntries that carry entries are lost (inheritedtail macro)
 	quiet          bool
 	faults         []*faultSpec
@@ -119,9 +121,20 @@ func (r *Runner) nodeOpts(i int) sim.NodeOpts {
 	if os.Getenv("DEBUGSRV") == r.ids[i] {
 		logw = os.Stdout
 	}
+	var slow func() time.Duration
+	if i < len(p.ApplyMs) && p.ApplyMs[i] > 0 {
+		d := time.Duration(p.ApplyMs[i]) * time.Millisecond
+		slow = func() time.Duration {
+			if r.quietFlag.Load() {
+				return 0 // the convergence bounds of the quiet phase are stated for an FSM that keeps up
+			}
+			return d
+		}
+	}
 	return sim.NodeOpts{
-		LogOutput: logw,
-		Batching:  p.Batching[i], ConfStore: p.ConfStore[i], Pipeline: p.Pipeline, HBFast: p.HBFast, NoPreVote: false, Notify: true,
+		ApplyDelayFn: slow,
+		LogOutput:    logw,
+		Batching:     p.Batching[i], ConfStore: p.ConfStore[i], Pipeline: p.Pipeline, HBFast: p.HBFast, NoPreVote: false, Notify: true,
 		Conf: func(c *raft.Config) {
 			hb := time.Duration(p.HBms[i]) * time.Millisecond
 			c.HeartbeatTimeout, c.ElectionTimeout = hb, hb
